@@ -140,10 +140,7 @@ inductive StepRel (cfg : Cfg) (s : State) : Label → State → Prop
       StepRel cfg s (.task i) { s with tasks := s.tasks.set i (.bRel false) }
   | writeOk (i : Nat) : s.tasks[i]? = some .write → cfg.fails i = false →
       StepRel cfg s (.task i)
-        { s with files := s.files.set (cfg.tensors.getD i default).file
-                            (writeAt (s.files.getD (cfg.tensors.getD i default).file [])
-                              (cfg.tensors.getD i default).off (cfg.tensors.getD i default).data)
-                 tasks := s.tasks.set i (.bRel true) }
+        { s with files := writeTask cfg s.files i, tasks := s.tasks.set i (.bRel true) }
   | bRel (i : Nat) (ok : Bool) : s.tasks[i]? = some (.bRel ok) →
       StepRel cfg s (.task i) (budgetRelease cfg s i ok)
 
